@@ -643,6 +643,10 @@ def gen_mirror_case(rng, big):
                         'via': str(rng.choice(['handle', 'property'])) if h == cur else 'handle'})
             if rng.random() < 0.5:
                 ops.append({'op': 'read', 'how': 'surface'})
+        elif r < 0.60 and nact > 0:
+            # a change far below any comparison tolerance (2^-30), in place
+            ops.append({'op': 'nudge', 'h': cur, 'i': int(rng.integers(0, nact))})
+            ops.append({'op': 'read', 'how': 'surface'})
         elif r < 0.68:
             v = [small() for _ in range(nact)]
             if ops and rng.random() < 0.3:
@@ -751,7 +755,11 @@ class MirrorRun:
         case = self.case
         npix, nact, kind = case['npix'], case['nact'], case['kind']
         grid = make_grid(npix)
-        dm, IF = self.set_if(None, grid, case, True)
+        try:
+            dm, IF = self.set_if(None, grid, case, True)
+        except Exception as e:  # noqa
+            self.bad.append(('mirror-construct-raises ' + kind, 'constructing the %s mirror raised %s: %s' % (kind, type(e).__name__, str(e)[:80])))
+            return self
         exact = not kind.startswith('seg')
         self.emit('C14 mirror new %d %d %s' % (IF.shape[0], IF.shape[1], fmt_mat(IF)), 'ok')
         handles = [dm.actuators]
@@ -763,6 +771,20 @@ class MirrorRun:
         wl = 0.5
         wf = hcipy.Wavefront(hcipy.Field(np.ones(npix), grid), wl)
         for op in case['ops']:
+            try:
+                dm, IF, cur, last_mut, edited_since_read = self.one(op, dm, IF, grid, handles, cur, last_mut, edited_since_read, exact, wf, wl)
+            except MachineryError:
+                raise
+            except Exception as e:  # noqa
+                self.bad.append(('mirror-op-raises ' + op['op'], '%s: %s after %s raised %s: %s' % (kind, op['op'], last_mut, type(e).__name__, str(e)[:80])))
+                return self
+        return self
+
+    def one(self, op, dm, IF, grid, handles, cur, last_mut, edited_since_read, exact, wf, wl):
+        import hcipy  # noqa
+        case = self.case
+        npix, nact, kind = case['npix'], case['nact'], case['kind']
+        if True:
             o = op['op']
             self.count('mirror-op:' + o)
             if o == 'assign':
@@ -783,6 +805,11 @@ class MirrorRun:
                 self.emit('C14 mirror edit %d %d %s' % (op['h'], op['i'], rat(op['v'])), 'ok')
                 last_mut = 'inplace-edit' if op['h'] == cur else 'edit-of-released-array'
                 edited_since_read = edited_since_read or op['h'] == cur
+            elif o == 'nudge':
+                handles[op['h']][op['i']] += 2.0 ** -30
+                self.emit('C14 mirror edit %d %d %s' % (op['h'], op['i'], rat(float(handles[op['h']][op['i']]))), 'ok')
+                last_mut = 'inplace-tiny-edit'
+                edited_since_read = True
             elif o == 'iadd':
                 dm.actuators += np.array(op['d'], dtype=float)
                 for i, x in enumerate(np.asarray(dm.actuators)):
@@ -857,7 +884,7 @@ class MirrorRun:
                 edited_since_read = False
             else:
                 raise MachineryError('unknown mirror op ' + o)
-        return self
+        return dm, IF, cur, last_mut, edited_since_read
 
 
 # ---------------------------------------------------------------------------------------------
@@ -946,19 +973,19 @@ def run(ctx):
                 'the modes are independent with cond <= 1e3). mirror cases: DeformableMirror (dense/sparse influence functions), '
                 'SegmentedDeformableMirror (dense/sparse segments), TipTiltMirror with 6-15 operations: assign new array, re-assign an '
                 'array handed out earlier, in-place edit of the current or of an earlier array (through the kept handle or through '
-                'dm.actuators), +=, set_segment_actuators, flatten, random (draw patched to dyadic data), new influence functions / '
+                'dm.actuators; also changes of 2^-30), +=, set_segment_actuators, flatten, random (draw patched to dyadic data), new influence functions / '
                 'segments, reads through surface / opd / phase_for / forward / backward. Exact comparison where all arithmetic is on '
                 'small dyadics, 1e-9 relative otherwise. Non-trivial: basis case with >=1 mode and >=1 derived basis; mirror case '
                 'with an in-place edit of the held array between two reads.')
     ctx.assumptions += ['NumPy/SciPy indexing, hstack, dot and lstsq meet their specifications (the reference uses plain ndarray arithmetic and Python list indexing)',
                         'float arithmetic on the generated small dyadic numbers is exact',
                         'coefficients_for is only compared for independent modes with condition number <= 1e3']
-    nb = ctx.scale(260, 5000)
-    nm = ctx.scale(260, 5000)
+    nb = ctx.scale(1000, 15000)
+    nm = ctx.scale(1000, 15000)
     cases = directed_cases()
     for k in range(nb):
         cases.append(gen_basis_case(ctx.rng, big=(ctx.tier == 'thorough' and k % 4 == 0)))
-    for k in range(ctx.scale(6, 60)):
+    for k in range(ctx.scale(20, 200)):
         cases.append(gen_lstsq_case(ctx.rng))
     for k in range(nm):
         cases.append(gen_mirror_case(ctx.rng, big=(ctx.tier == 'thorough' and k % 4 == 0)))
